@@ -113,8 +113,21 @@ def get_domain(case):
     from ghedesigner.manager import GHEManager
 
     m = GHEManager()
+    # the container form is not part of the polygon: vertices as lists or tuples, whole numbers as ints, a single outline bare or in a list
+    form = case.get("form", 0)
+
+    def vtx(p):
+        x, y = (int(p[0]), int(p[1])) if form in (2, 3) and float(p[0]).is_integer() and float(p[1]).is_integer() else (p[0], p[1])
+        return (x, y) if form in (1, 3) else [x, y]
+
+    prop = [[vtx(p) for p in o] for o in case["property"]]
+    nogo = [[vtx(p) for p in o] for o in case["nogo"]]
+    if form == 4 and len(prop) == 1:
+        prop = prop[0]
+    if form == 4 and len(nogo) == 1:
+        nogo = nogo[0]
     m.set_geometry_constraints_bi_rectangle_constrained(
-        b_min=case["b_min"], b_max_x=case["b_max_x"], b_max_y=case["b_max_y"], property_boundary=case["property"], no_go_boundaries=case["nogo"]
+        b_min=case["b_min"], b_max_x=case["b_max_x"], b_max_y=case["b_max_y"], property_boundary=prop, no_go_boundaries=nogo
     )
     m.set_design(flow_rate=0.5, flow_type_str="BOREHOLE")
     return [list(x) for x in m._design.coordinates_domain_nested]
@@ -255,6 +268,8 @@ def run_shard(spec):
     for i in range(spec["n"]):
         idx = spec["shard"] * 1000 + i
         case = repo_case() if (spec["shard"] == 0 and i == 0) else draw_case(g, idx)
+        case["form"] = i % 5  # lists / tuples / ints where whole / int tuples / single outlines bare
+        res["stats"]["container_form_%d" % case["form"]] = res["stats"].get("container_form_%d" % case["form"], 0) + 1
         tap.pop()
         try:
             final = get_domain(case)
